@@ -57,6 +57,14 @@ def run(ctx):
     c01.check_request(sub, ctx.fb("default"), "default")
     for r in sub.results:
         (ctx.ok if r.status == "ok" else ctx.fail)("R03-5", r.instance, r.reason, r.loc)
+    # R03-6 (shared with C09 R09-4): "different (e, m) give different nullifiers, the share lies on the line through (0, s)" holds
+    # for the H of the formulas only while H mixes every input lane into every output: the permutation's linear layer is the dense
+    # matrix-vector product and no step is skipped on a data-dependent condition
+    from . import c09
+    sub = type(ctx)(ctx.pid, ctx.tier)
+    c09.check_shape(sub, ctx.fb("default"))
+    for r in sub.results:
+        (ctx.ok if r.status == "ok" else ctx.fail)("R03-6", r.instance, r.reason, r.loc)
     fx = ctx.fb("fixtures")
     from ..main import Ctx
     sub = Ctx(ctx.pid, ctx.tier)
